@@ -619,6 +619,10 @@ def make_set(rng):
             if mode == "prefix" and i == short and n > 1:
                 sp["components"] = [c for c in sp["components"] if c["name"] != "intercoolant"]
             typ = rng.choice(TYPE_POOL[rng.choice(["fuel", "fuel", "fuel", "control", "shield"])])
+        if rng.random() < .5:
+            # the child order of a block need not be the dimension-sorted one (fresh assemblies built from blueprints keep the
+            # YAML order; only reactors.factory sorts): members are built in a random component order
+            sp = dict(sp, components=rng.sample(sp["components"], len(sp["components"])))
         b = gen.build_block(sp, rng.uniform(5, 60), name="blk%02d" % i)
         b.name = "M%03d" % i
         b.setType(typ)
